@@ -44,6 +44,21 @@ fn test(c: &SimCase, obs: &mut Obs) -> CheckResult {
     Ok(())
 }
 
+/// The timing policy while packets that are not probe responses (foreign, malformed, unhandled
+/// types, duplicates) keep arriving: a stray packet wakes the loop, it must not hold a round open.
+fn junk_strat() -> BoxedStrategy<SimCase> {
+    sim_case(&GenOpts {
+        supported_only: true,
+        sending_only: true,
+        injections: true,
+        inj_max: 16,
+        max_hops: 12,
+        long_path_pct: 0,
+        rounds: (1, 6),
+        ..GenOpts::default()
+    })
+}
+
 /// The timing policy on runs with scripted socket faults (failed sends, TCP re-issues).
 fn faults_test(c: &SimCase, obs: &mut Obs) -> CheckResult {
     let log = run_trace(&c.cfg, &c.world);
@@ -70,6 +85,14 @@ pub fn check() -> PropertyCheck {
             thorough: 3_000_000,
             strat,
             test,
+            max_shrink: 3000,
+        }),
+        Box::new(Pbt {
+            name: "timing-junk",
+            quick: 60_000,
+            thorough: 1_500_000,
+            strat: junk_strat,
+            test: faults_test,
             max_shrink: 3000,
         }),
         Box::new(Pbt {
